@@ -212,6 +212,10 @@ func r8pairs(c *core.Ctx, m *nasModel) {
 	for _, n := range names {
 		msg := m.Msgs[n]
 		c.Analysed(pNasM + "." + n)
+		if un := msg.uninterpreted(); len(un) > 0 && n != "SecurityProtected5GSNASMessage" {
+			c.SoftUndecided("nasMessage.%s: the codec moves octets with statements the model does not interpret (%s); the message is not decided", n, clip(strings.Join(un, "; ")))
+			continue
+		}
 		for _, p := range msg.Problems {
 			if n == "SecurityProtected5GSNASMessage" && strings.Contains(p, "Plain5GSNASMessage") {
 				continue // the envelope's opaque remainder (not one of the 45 plain messages' IEs)
